@@ -251,3 +251,113 @@ _add(Cond('pickle_roundtrip', [('k', 'int')], body_pickle, ranges={'k': (0, 6)},
         functions=['Index.__setstate__', 'TypeBlocks.__setstate__'],
         bounds='Frame / Series / Index / IndexGO / IndexHierarchy / FrameGO / hierarchical Series (container kind chosen by a symbolic index), concrete cells',
         route='pickle.loads(pickle.dumps(x)): equal content and every array read-only again', timeout=200))
+
+
+# ---------------------------------------------------------------- a static container made from a grow-only one never follows its later growth
+
+def _conc(v, lo, hi):
+    for k in range(lo, hi + 1):
+        if v == k:
+            return k
+    raise AssertionError('out of range')
+
+
+def body_static_from_go(env, a, kind):
+    sf = env.sf
+    from vf import rt
+    a, kind = _conc(a, 9, 21), _conc(kind, 0, 4)
+
+    def probe(ix):
+        try:
+            pos = env.obs(ix.loc_to_iloc(a))
+        except KeyError:
+            pos = 'KeyError'
+        return [env.obs(list(ix)), len(ix), bool(a in ix), pos, env.obs(ix.values.tolist()), env.obs(ix.positions.tolist())]
+
+    def run():
+        go = sf.IndexGO([10, 20])
+        fgo = sf.FrameGO(env.array([[1, 2], [3, 4]], 'int64'), index=(100, 101), columns=go)
+        if kind == 0:
+            holder = sf.Index(go)
+            static = holder
+        elif kind == 1:
+            holder = fgo.to_frame()
+            static = holder.columns
+        elif kind == 2:
+            holder = sf.Frame(fgo)
+            static = holder.columns
+        elif kind == 3:
+            holder = sf.Series(env.array([1, 2], 'int64'), index=go)
+            static = holder.index
+        else:
+            holder = fgo.iloc[0]          # a row Series: its index is the (static) image of the grow-only columns
+            static = holder.index
+        before = probe(static)
+        hsnap = snap(env, holder)
+        held = a in (10, 20)
+        grew = []
+        for grow in (lambda: go.append(a), lambda: fgo.__setitem__(a, 7)):
+            try:
+                grow()
+                grew.append(True)
+            except Exception:  # noqa: BLE001
+                grew.append(False)
+        after = probe(static)
+        exp_probe = [[10, 20], 2, held, ([10, 20].index(a) if held else 'KeyError'), [10, 20], [0, 1]]
+        return [before, after, snap(env, holder), all_readonly(env, holder)], [exp_probe, exp_probe, hsnap, True]
+    return rt.untraced(run)
+
+
+_add(Cond('static_from_grow_only_then_growth', [('a', 'int'), ('kind', 'int')], body_static_from_go, ranges={'a': (9, 21), 'kind': (0, 4)},
+        functions=['Index.__init__', '_IndexGOMixin.append'],
+        bounds='IndexGO [10, 20] / FrameGO 2x2 over it; static image taken by Index(go) / FrameGO.to_frame / Frame(fgo) / Series(index=go) / row selection (symbolic choice); then the source grows by a label symbolic in 9..21',
+        route='static Index / Frame / Series made from a grow-only source: labels, membership, loc_to_iloc, positions and cells are the same before and after the source grows', timeout=240))
+
+
+# ---------------------------------------------------------------- the shared positions buffer: one step from an arbitrary allocator state
+
+def body_positions_allocator(env, s0, n1, n2, pos):
+    """PositionsAllocator hands every Index a read-only view of ONE class-level arange; the buffer is re-allocated when a
+    larger size is asked for.  The class state is made arbitrary (initial capacity s0), then two requests of arbitrary
+    sizes are served: every view handed out (before and after a re-allocation) is read-only and holds 0..n-1, and a
+    caller write through any of them is refused."""
+    from vf import rt
+    from static_frame.core.util import PositionsAllocator as PA
+    s0, n1, n2, pos = _conc(s0, 1, 3), _conc(n1, 0, 5), _conc(n2, 0, 5), _conc(pos, 0, 2)
+    val = 99
+
+    def run():
+        xp = env.xp
+        saved = (PA._size, PA._array)
+        try:
+            arr = xp.arange(s0, dtype='int64')
+            arr.flags.writeable = False
+            PA._size, PA._array = s0, arr
+            v1 = PA.get(n1)
+            v2 = PA.get(n2)
+            out, exp = [], []
+            for v, n in ((v1, n1), (v2, n2)):
+                wrote = False
+                if pos < n:
+                    try:
+                        v[pos] = val
+                        wrote = True
+                    except ValueError:
+                        pass
+                out.append([env.obs(v.tolist()), v.flags.writeable is False or v.flags.writeable == False, wrote])  # noqa: E712
+                exp.append([list(range(n)), True, False])
+            # a later, unrelated Index of that size sees clean positions
+            v3 = PA.get(max(n1, n2))
+            out.append(env.obs(v3.tolist()))
+            exp.append(list(range(max(n1, n2))))
+            return out, exp
+        finally:
+            PA._size, PA._array = saved
+    return rt.untraced(run)
+
+
+_add(Cond('positions_allocator_step', [('s0', 'int'), ('n1', 'int'), ('n2', 'int'), ('pos', 'int')], body_positions_allocator,
+        ranges={'s0': (1, 3), 'n1': (0, 5), 'n2': (0, 5), 'pos': (0, 2)},
+        functions=['PositionsAllocator.get'],
+        bounds='allocator capacity symbolic in 1..3 (the real initial capacity is 1024: the re-allocation branch is the same code), two requests of symbolic sizes 0..5, caller write at a symbolic position 0..2 through each view',
+        route='PositionsAllocator.get (Index.positions): views are read-only and hold 0..n-1 before and after a re-allocation', timeout=240))
